@@ -1254,6 +1254,145 @@ theorem rank_pipeline {lower : Bytes → Bytes} {cv : Conv} {env : Env V T D S W
 
 end pipeline
 
+/-! ### every leaf answer is a reference answer -/
+
+section leafref
+variable [DecidableEq T] [LinearOrder D]
+
+/-- the answer of the index of a leaf, read on uuids, is an answer of the reference map:
+a filter leaf returns exactly the points whose document satisfies it and ranks nothing; a vector leaf
+returns an exact nearest-neighbour answer with hybrid score `neg (fscale w distance)`; a text leaf an exact
+tf-idf answer with hybrid score `scale w score` -/
+def LeafRef (lower : Bytes → Bytes) (cv : Conv) (env : Env V T D S W) (orc : SOracle V T S) (rs : RState V T)
+    (le : S → S → Prop) : RLeaf V T W → Prop
+  | .filt l =>
+    (evalRLeaf lower cv env orc rs (.filt l)).res = [] ∧
+    ∀ u, (∃ n ∈ (evalRLeaf lower cv env orc rs (.filt l)).set, C01.AL.get rs.base.shard.pts.nI n = some u) ↔
+      specMatches lower cv rs.base.schema (C01.abs rs.base.shard) (.leaf l) u
+  | .flat path qv limit w f =>
+    ∃ A : List (Nat × D),
+      evalRLeaf lower cv env orc rs (.flat path qv limit w f) =
+        ⟨A.map (·.1), A.map fun a => ⟨a.1, env.neg (env.fscale w a.2)⟩⟩ ∧
+      IsFlatAnswer lower cv env rs.base.schema (C01.abs rs.base.shard) path qv limit f
+        (A.map fun a => (uuidAt rs.base.shard.pts a.1, a.2))
+  | .text path terms all limit w f =>
+    ∃ (set : List Nat) (A : List (Nat × S)),
+      evalRLeaf lower cv env orc rs (.text path terms all limit w f) =
+        ⟨set, A.map fun a => ⟨a.1, env.ops.scale w a.2⟩⟩ ∧
+      (∀ n, n ∈ set ↔ n ∈ A.map (·.1)) ∧
+      IsTextAnswer lower cv env rs.base.schema (C01.abs rs.base.shard) path terms all limit f le
+        (A.map fun a => (uuidAt rs.base.shard.pts a.1, a.2))
+
+theorem leaf_ok {lower : Bytes → Bytes} {cv : Conv} {env : Env V T D S W} {rs : RState V T}
+    (hR : RInv lower cv env rs) (orc : SOracle V T S) (le : S → S → Prop) (sortOpts : List C06.SortOpt)
+    (hok : orc.OK le sortOpts)
+    (add_comm : ∀ a b, env.ops.add a b = env.ops.add b a)
+    (add_assoc : ∀ a b c, env.ops.add (env.ops.add a b) c = env.ops.add a (env.ops.add b c))
+    (l : RLeaf V T W) (hwf : l.wf rs cv = true) (hv : l.Valid) :
+    LeafRef lower cv env orc rs le l ∧ LeafGood rs (evalRLeaf lower cv env orc rs l) ∧
+      l.noErr lower cv env orc rs = true := by
+  have hI := hR.base
+  cases l with
+  | filt l =>
+    have hwf' : l.wf (rs.base.view cv) = true := hwf
+    have hval : l.Valid := hv
+    have hspec : ∀ i, i ∈ C02.evalLeaf lower (rs.base.view cv) l ↔ (C02.Query.leaf l).sat lower (rs.base.view cv) i := by
+      intro i
+      rw [C02.evalLeaf_spec lower (view_inv hI) l hwf' hval i]
+      simp [C02.Query.sat]
+    have hqwf : (C02.Query.leaf l).wf (rs.base.view cv) = true := by rw [C02.Query.wf_leaf]; exact hwf'
+    have hset : ∀ n, n ∈ (evalRLeaf lower cv env orc rs (.filt l)).set ↔
+        ∃ i : C02.Id, i.toNat = n ∧ (C02.Query.leaf l).sat lower (rs.base.view cv) i := by
+      intro n
+      simp only [evalRLeaf, List.mem_map]
+      constructor
+      · rintro ⟨i, hi, rfl⟩; exact ⟨i, rfl, (hspec i).1 hi⟩
+      · rintro ⟨i, rfl, hs⟩; exact ⟨i, (hspec i).2 hs, rfl⟩
+    refine ⟨⟨rfl, fun u => ?_⟩, ⟨by simp [evalRLeaf], by simp [evalRLeaf], ?_⟩, rfl⟩
+    · rw [specMatches_iff hI]
+      constructor
+      · rintro ⟨n, hn, hl⟩
+        obtain ⟨i, rfl, hs⟩ := (hset n).1 hn
+        exact ⟨i, hl, hs⟩
+      · rintro ⟨i, hl, hs⟩
+        exact ⟨i.toNat, (hset _).2 ⟨i, rfl, hs⟩, hl⟩
+    · intro n hn
+      obtain ⟨i, rfl, hs⟩ := (hset n).1 hn
+      exact live_of_sat hI _ hqwf i hs
+  | flat path qv limit w f =>
+    simp only [RLeaf.wf, Bool.and_eq_true, decide_eq_true_eq] at hwf
+    obtain ⟨⟨h1, hlim⟩, hfw⟩ := hwf
+    cases hfx : rs.flat path with
+    | none => rw [hfx] at h1; cases h1
+    | some fx =>
+      obtain ⟨hnd, hlive, hans⟩ := flat_leaf_ref hR orc hfx qv limit f hfw hv (hok.enum_perm _)
+      have hev : evalRLeaf lower cv env orc rs (.flat path qv limit w f) =
+          ⟨(flatSearch lower cv env orc rs fx qv limit f).map (·.id.toNat),
+           (flatSearch lower cv env orc rs fx qv limit f).map fun r => ⟨r.id.toNat, env.neg (env.fscale w r.d)⟩⟩ := by
+        simp only [evalRLeaf, hfx]
+      refine ⟨⟨(flatSearch lower cv env orc rs fx qv limit f).map fun r => (r.id.toNat, r.d), ?_, ?_⟩, ?_, rfl⟩
+      · rw [hev]; simp [List.map_map, Function.comp_def]
+      · simpa [List.map_map, Function.comp_def] using hans
+      · rw [hev]
+        refine ⟨?_, ?_, ?_⟩
+        · intro x hx
+          obtain ⟨r, hr, rfl⟩ := List.mem_map.1 hx
+          exact List.mem_map.2 ⟨r, hr, rfl⟩
+        · simpa [List.map_map, Function.comp_def] using hnd
+        · intro n hn
+          obtain ⟨r, hr, rfl⟩ := List.mem_map.1 hn
+          exact hlive r hr
+  | text path terms all limit w f =>
+    simp only [RLeaf.wf, Bool.and_eq_true] at hwf
+    obtain ⟨h1, hfw⟩ := hwf
+    cases htx : rs.text path with
+    | none => rw [htx] at h1; cases h1
+    | some tx =>
+      obtain ⟨set, res, hs, hset, hnd, hlive, hhyb, hans⟩ :=
+        text_leaf_ref hR orc le add_comm add_assoc hok.tsort_perm hok.tsort_sorted hok.tord_perm htx terms all limit w f hfw hv
+      have hev : evalRLeaf lower cv env orc rs (.text path terms all limit w f) =
+          ⟨set, res.map fun r => ⟨r.id, r.hybrid⟩⟩ := by
+        simp only [evalRLeaf, htx, hs]
+      refine ⟨⟨set, res.map fun r => (r.id, r.score), ?_, ?_, ?_⟩, ?_, ?_⟩
+      · rw [hev]
+        congr 1
+        simp only [List.map_map, Function.comp_def]
+        apply List.map_congr_left
+        intro r hr
+        rw [hhyb r hr]
+      · intro n; rw [hset n]; simp [List.map_map, Function.comp_def]
+      · simpa [List.map_map, Function.comp_def] using hans
+      · rw [hev]
+        refine ⟨?_, ?_, ?_⟩
+        · intro x hx
+          obtain ⟨r, hr, rfl⟩ := List.mem_map.1 hx
+          exact (hset r.id).2 (List.mem_map.2 ⟨r, hr, rfl⟩)
+        · simpa [List.map_map, Function.comp_def] using hnd
+        · intro n hn
+          obtain ⟨r, hr, rfl⟩ := List.mem_map.1 ((hset n).1 hn)
+          exact hlive r hr
+      · simp only [RLeaf.noErr, htx, hs]; rfl
+
+/-- every leaf of a well-formed valid query is answered by its index with a reference answer, and the tree
+is fit for the answer pipeline -/
+theorem leaves_ok {lower : Bytes → Bytes} {cv : Conv} {env : Env V T D S W} {rs : RState V T}
+    (hR : RInv lower cv env rs) (orc : SOracle V T S) (le : S → S → Prop) (sortOpts : List C06.SortOpt)
+    (hok : orc.OK le sortOpts)
+    (add_comm : ∀ a b, env.ops.add a b = env.ops.add b a)
+    (add_assoc : ∀ a b c, env.ops.add (env.ops.add a b) c = env.ops.add a (env.ops.add b c))
+    (q : RQuery V T W) (hwf : q.wf rs cv = true) (hv : q.Valid) :
+    q.allLeaves (LeafRef lower cv env orc rs le) ∧
+    q.allLeaves (fun l => LeafGood rs (evalRLeaf lower cv env orc rs l)) ∧
+    q.noErr lower cv env orc rs = true := by
+  have h0 := allLeaves_and q (allLeaves_of_wf rs cv q hwf) hv
+  have h1 := allLeaves_imp (Q := fun l => LeafRef lower cv env orc rs le l ∧ LeafGood rs (evalRLeaf lower cv env orc rs l) ∧
+      l.noErr lower cv env orc rs = true)
+    (fun l h => leaf_ok hR orc le sortOpts hok add_comm add_assoc l h.1 h.2) q h0
+  exact ⟨allLeaves_imp (fun l h => h.1) q h1, allLeaves_imp (fun l h => h.2.1) q h1,
+    noErr_of_leaves lower cv env orc rs q (allLeaves_imp (fun l h => h.2.2) q h1)⟩
+
+end leafref
+
 end read
 
 end Sema.Compose
